@@ -257,6 +257,8 @@ func main() {
 		for id, why := range props.NotApplicable {
 			fmt.Printf("%s not applicable: %s\n", id, why)
 		}
+	case "manifest":
+		writeManifest()
 	case "dump":
 		c, err := analyse(os.Getenv("SEMA_GOARCH"))
 		if err != nil {
@@ -286,4 +288,80 @@ func main() {
 		fmt.Println("unknown command", os.Args[1])
 		os.Exit(2)
 	}
+}
+
+
+// writeManifest prints MANIFEST.json derived from the property table, so that the
+// manifest, the evidence texts and DESIGN.md's summary share one source.
+func writeManifest() {
+	type level struct {
+		Category  string `json:"category"`
+		Text      string `json:"text"`
+		DesignRef string `json:"design_ref"`
+	}
+	type chk struct {
+		PropertyID   string `json:"property_id"`
+		QuickCmd     string `json:"quick_cmd"`
+		ThoroughCmd  string `json:"thorough_cmd"`
+		EvidenceFile string `json:"evidence_file"`
+		Replay       string `json:"replay_cmd_template"`
+		Engine       string `json:"engine"`
+		Level        level  `json:"level_claimed"`
+		LevelNote    string `json:"level_note"`
+		Technique    string `json:"technique"`
+	}
+	type na struct {
+		PropertyID string `json:"property_id"`
+		Reason     string `json:"reason"`
+	}
+	var checks []chk
+	var served []string
+	for _, p := range props.All {
+		served = append(served, p.ID)
+		checks = append(checks, chk{
+			PropertyID:   p.ID,
+			QuickCmd:     "/verif/bin/semaverif check -property " + p.ID + " -tier quick",
+			ThoroughCmd:  "/verif/bin/semaverif check -property " + p.ID + " -tier thorough",
+			EvidenceFile: "/verif/evidence/" + p.ID + ".json",
+			Replay:       "/verif/bin/semaverif explain {path}",
+			Engine:       "semaverif",
+			Level: level{
+				Category: "other",
+				Text: "Static analysis of the type-checked program (go/ssa, VTA call graph), nothing executed. It decides structural clauses the property cannot hold without, on every path / call site / table row of the current tree: " + p.Decides +
+					". It does not decide the behaviour itself: " + p.Undecided + ". A necessary-condition check is the strongest sound claim this technique family can make for a property that quantifies over runtime values.",
+				DesignRef: "DESIGN.md §5 " + p.ID + ", rules in §4: " + strings.Join(p.Rules, ", "),
+			},
+			LevelNote: "Trusted: go/types and go/ssa (x/tools v0.50.0), VTA resolution of interface and closure calls, the frozen exception tables (each printed in the evidence with its reason), bbolt and the Go runtime. Lock identity is abstracted to (struct type, field). Known findings are listed in /verif/known_findings.txt by construct key.",
+			Technique: "static analysis: " + props.Technique[p.ID],
+		})
+	}
+	var nas []na
+	var ids []string
+	for id := range props.NotApplicable {
+		ids = append(ids, id)
+	}
+	sort.Strings(ids)
+	for _, id := range ids {
+		nas = append(nas, na{id, props.NotApplicable[id]})
+	}
+	m := map[string]any{
+		"version":   1,
+		"setup_cmd": "/verif/scripts/build.sh",
+		"hooks": map[string]any{
+			"guard":            "verif",
+			"enable":           "none needed: the checks analyse /repo's source as it is and add no hook or instrumentation; the tag is reserved and unused",
+			"baseline_off_cmd": "for m in $(cat /w/out/gomods.txt); do MF=$(cd /repo/$m && . /w/out/goenv.sh && gomodflag); (cd /repo/$m && go test $MF -json -vet=off -count=1 -timeout 25m ./...); done",
+			"source_commits":   []string{},
+			"add_only":         true,
+		},
+		"engines": []map[string]any{{
+			"name": "semaverif", "path": "/verif/tool", "serves_properties": served,
+			"kind_free_text": "repository-specific static analyser: go/packages + go/ssa + VTA call graph; path-sensitive lock-state exploration, dominance / must-pass-through queries, provenance slices, table extraction, two small abstract interpreters (sortable key codec, Plan-9 AVX kernels)",
+		}},
+		"checks":         checks,
+		"not_applicable": nas,
+		"notes":          "All checks are static (technique family: static analysis). Every claimed property is claimed at level 'other': a named structural necessary condition, not the behaviour. Fix commits in /repo and known findings are listed in /verif/known_findings.txt; seeded property-breaking changes and which rule reports each are in /verif/seeded and DESIGN.md.",
+	}
+	data, _ := json.MarshalIndent(m, "", " ")
+	fmt.Println(string(data))
 }
